@@ -46,6 +46,12 @@ for unix in (False, True):
 # real time: the server rotates once the node's second chain is valid; the node must still connect (through its second chain)
 for i in range(3):
     beh("f07_rotate%d" % i, ["C07", "C09"], cfg(life=8, sw=(i == 1)), [E("k1"), D("k1"), RW] + [D("k1", ex, st) for ex, st in [("none", "none"), ("one", "nested"), ("many", "none")] * 6] + [RG("k1", "foreign"), RG("k1", "staleNonce")])
+# real time: the current root expires before the operator rotates; registered nodes still connect (second chain), an
+# unregistered node is told it is not authorised and succeeds with the same key once authorised
+EW = dict(op="ExpireWait")
+for i in range(2):
+    beh("f07_expired%d" % i, ["C07", "C09"], cfg(life=8, sw=(i == 1)), [E("k1"), D("k1"), NN("k2"), D("k2"), EW, D("k1"), D("k2"), D("k2", "one", "nested"), AP("k2"), D("k2"), D("k2", "many"), NN("k3"), D("k3"),
+                                                                     D("k1", "one", "nested"), RG("k1", "foreign")])
 def RN(k): return dict(op="RotateNode", k=k)
 def DP(k): return dict(op="DialPrev", k=k)
 def RP(k): return dict(op="RemovePrev", k=k)
